@@ -12,7 +12,7 @@ os.makedirs("/tmp/seedcheck", exist_ok=True)
 shutil.rmtree(scratch, ignore_errors=True)
 # no -t: fresh mtimes, otherwise cargo reuses artifacts built from a previous (patched) copy at the same path
 subprocess.run(["rsync", "-rlp", "--exclude", "target", "--exclude", ".git", "/repo/", scratch + "/"], check=True)
-env = dict(os.environ, CARGO_TARGET_DIR="/tmp/seedcheck/target", CARGO_NET_OFFLINE="true")
+env = dict(os.environ, CARGO_TARGET_DIR=os.environ.get("SEED_TARGET", "/tmp/seedcheck/target"), CARGO_NET_OFFLINE="true")
 def sh(cmd, **kw):
     r = subprocess.run(cmd, cwd=scratch, env=env, stdout=subprocess.PIPE, stderr=subprocess.STDOUT, text=True, **kw)
     return r.returncode, r.stdout
